@@ -25,10 +25,10 @@ import (
 func init() { verifScenarios["c14"] = c14Run }
 
 type envSpec struct {
-	Flags      byte `json:"flags"`
-	Len        int  `json:"declared_len"`
-	Compressed bool `json:"payload_really_compressed"`
-	Garbage    bool `json:"payload_garbage_although_flagged"`
+	Flags      byte   `json:"flags"`
+	Len        int    `json:"declared_len"`
+	Compressed bool   `json:"payload_really_compressed"`
+	Garbage    bool   `json:"payload_garbage_although_flagged"`
 	Plain      string `json:"plain_end_stream_content,omitempty"`
 }
 
@@ -74,7 +74,7 @@ func c14GenBody(tape *simrt.Tape, cs *c14Case, tier string, responseSide bool) [
 	lens := []int{0, 1, 2, 5, 17, 200}
 	if tier == "thorough" {
 		maxEnv = 8
-		lens = append(lens, 5000, 70 * 1024)
+		lens = append(lens, 5000, 70*1024)
 	}
 	n := tape.Choose(maxEnv+1, "nenv")
 	var body []byte
@@ -226,7 +226,7 @@ type scriptedRW struct {
 	flushes int
 }
 
-func (s *scriptedRW) Header() http.Header { return s.hdr }
+func (s *scriptedRW) Header() http.Header  { return s.hdr }
 func (s *scriptedRW) WriteHeader(code int) { s.status = append(s.status, code) }
 func (s *scriptedRW) Write(p []byte) (int, error) {
 	n, err := s.w.Write(p)
